@@ -308,19 +308,20 @@ func stringLaws() []L {
 				}
 			}
 			want := int64(runeIndex(s, t))
-			if want == 0 && strings.Contains(strings.ToLower(s), strings.ToLower(t)) {
-				tc = "case-only-match" // whether LOCATE folds case is a collation question: generated, not judged
+			fold := int64(runeIndex(strings.ToLower(s), strings.ToLower(t)))
+			if fold != want {
+				tc = "case-variant-earlier"
 			}
 			return g5lib.NewInst(c+"/"+tc, []string{s, t}, func(v []V) string {
-				if tc == "case-only-match" {
-					return g5lib.Skip("case-only-match")
-				}
 				if !v[1].IsInt(want) {
 					return "instr-differs-from-reference"
 				}
 				if !v[0].IsInt(want) || !v[2].IsInt(want) {
 					if g5lib.MultiByte(s) && v[0].IsInt(byteLocate(s, t, 1)) && v[2].IsInt(byteLocate(s, t, 1)) {
 						return "multibyte-position-counted-in-bytes"
+					}
+					if fold != want && v[0].IsInt(fold) && v[2].IsInt(fold) {
+						return "case-folded-match-under-binary-collation"
 					}
 					if want == 0 {
 						return "found-but-absent"
@@ -352,8 +353,9 @@ func stringLaws() []L {
 			if want == 0 {
 				cls = "not-after-pos"
 			}
-			if want == 0 && strings.Contains(strings.ToLower(rest), strings.ToLower(t)) {
-				return nil // case-only match: not judged
+			fold := int64(0)
+			if k := runeIndex(strings.ToLower(rest), strings.ToLower(t)); k > 0 {
+				fold = int64(k + pos - 1)
 			}
 			return g5lib.NewInst(c+"/"+cls, []any{s, t, pos}, func(v []V) string {
 				if v[0].IsInt(want) {
@@ -361,6 +363,9 @@ func stringLaws() []L {
 				}
 				if g5lib.MultiByte(s) && v[0].IsInt(byteLocate(s, t, pos)) {
 					return "multibyte-position-counted-in-bytes"
+				}
+				if fold != want && v[0].IsInt(fold) {
+					return "case-folded-match-under-binary-collation"
 				}
 				return "position-differs-from-reference"
 			}, fmt.Sprintf("LOCATE(%s,%s,%d)", Q(t), Q(s), pos))
@@ -717,6 +722,11 @@ func stringLaws() []L {
 			}
 			if want == 0 {
 				cls = "absent"
+			}
+			for i, it := range items {
+				if strings.EqualFold(it, x) && (want == 0 || int64(i+1) < want) {
+					return nil // a case variant comes first: whether FIELD folds case is not judged here
+				}
 			}
 			k := int64(rnd.Intn(n+3)) - 1
 			return g5lib.NewInst(fmt.Sprintf("n=%d/%s", n, cls), []any{x, items, k}, func(v []V) string {
